@@ -12,6 +12,7 @@ from __future__ import annotations
 
 import asyncio
 import ctypes
+import math
 import os
 import time as _time
 
@@ -104,6 +105,10 @@ class VirtualLoop(asyncio.SelectorEventLoop):
         hook = self.step_hook
         if hook is not None:
             hook(self.steps)
+        # asyncio runs a timer when `when < time() + clock_resolution`; months into a virtual run 1 ns is below the spacing
+        # of doubles and a due timer would never fire: keep the resolution at two ulps of the current instant
+        if self._vnow > 1e6:
+            self._clock_resolution = max(1e-9, 2 * math.ulp(self._vnow))
         super()._run_once()
 
     # ---- executor
